@@ -3,7 +3,9 @@ module github.com/koestler/go-victron
 go 1.21.5
 
 require (
+	github.com/google/go-cmp v0.6.0
 	github.com/muka/go-bluetooth v0.0.0-20221213043340-85dc80edc4e1
+	github.com/spf13/cobra v1.8.0
 	github.com/tarm/serial v0.0.0-20180830185346-98f6abe2eb07
 	go.uber.org/mock v0.3.0
 	golang.org/x/exp v0.0.0-20231214170342-aacd6d4b4611
@@ -12,11 +14,9 @@ require (
 require (
 	github.com/fatih/structs v1.1.0 // indirect
 	github.com/godbus/dbus/v5 v5.0.3 // indirect
-	github.com/google/go-cmp v0.6.0 // indirect
 	github.com/inconshreveable/mousetrap v1.1.0 // indirect
 	github.com/konsorten/go-windows-terminal-sequences v1.0.3 // indirect
 	github.com/sirupsen/logrus v1.6.0 // indirect
-	github.com/spf13/cobra v1.8.0 // indirect
 	github.com/spf13/pflag v1.0.5 // indirect
 	golang.org/x/sys v0.1.0 // indirect
 )
